@@ -188,6 +188,16 @@ def fam_vdp_stiff(rng):
                     [sub(mul(mul(C(-2.0 * mu), Y(0)), Y(1)), C(1.0)), mul(C(mu), sub(C(1.0), mul(Y(0), Y(0))))]]}
 
 
+def fam_bump(rng):
+    """oscillator whose stiffness jumps inside a window: hard rejections at the edges, easy retries after them"""
+    c = rng.uniform(0.8, 2.0)
+    w = rng.uniform(0.05, 0.3)
+    K = rng.choice([30.0, 80.0, 200.0])
+    coef = add(C(1.0), iflt(absx(sub(T, C(c))), C(w), C(K), C(0.0)))
+    return {"name": "bump", "f": [Y(1), neg(mul(coef, Y(0)))], "y0": [1.0, 0.0], "span": rng.uniform(3.0, 6.0),
+            "forward_only": False, "x0": 0.0}
+
+
 STIFF = [fam_stiff_forced, fam_stiff_linear, fam_robertson, fam_vdp_stiff]
 
 SMOOTH = [fam_linear, fam_sho, fam_logistic, fam_rational, fam_vdp, fam_forced, fam_rot3, fam_zero, fam_const]
